@@ -180,7 +180,7 @@ func newGSUB(table tables.Layout) (GSUB, error) {
 			}
 
 			// sanitize each lookup
-			switch subtable := subtable.(type) {
+			switch subtable := subtables[j].(type) { // after resolving extension
 			case tables.MultipleSubs:
 				err = subtable.Sanitize()
 			case tables.LigatureSubs:
@@ -235,7 +235,7 @@ func newGPOS(table tables.Layout) (GPOS, error) {
 			}
 
 			// sanitize each lookup
-			switch subtable := subtable.(type) {
+			switch subtable := subtables[j].(type) { // after resolving extension
 			case tables.SinglePos:
 				err = subtable.Sanitize()
 			case tables.PairPos:
